@@ -34,6 +34,11 @@ Theorem c11_grammar_implies_balanced : forall l, wf l -> balanced l = true.
 Proof. exact wf_balanced. Qed.
 Print Assumptions c11_grammar_implies_balanced.
 
+(* ... and conversely: `balanced` is exactly the token-level language of matched delimiters *)
+Theorem c11_balanced_iff_grammar : forall l, balanced l = true <-> wf l.
+Proof. exact balanced_iff_wf. Qed.
+Print Assumptions c11_balanced_iff_grammar.
+
 Theorem c11_one_delimiter_deleted_unbalanced : forall l i t,
   balanced l = true -> nth_error l i = Some t -> is_delim t = true ->
   balanced (remove_nth i l) = false /\
